@@ -11,16 +11,25 @@ import (
 // any file-system step of the commit (between steps, inside the log write with a torn tail, before or after the
 // sync), in both crash models. After recovery either every key of the transaction is there or none is; an
 // acknowledged commit is there completely. Shapes: small values, and values that fill log records completely
-// (the batch then sits exactly at the log buffer's capacity).
+// (the batch then sits exactly at the log buffer's capacity), and a transaction that fits the log buffer but not
+// the room an earlier unsynced write left in it (log sync modes none/batch).
 func VerifC03_CrashInCommit() {
 	h := &hEnv{}
 	h.hKeys(3)
 	nkeys := vsym.IntRange("keys", 2, 3)
 	var vals [3][]byte
-	if vsym.IntRange("shape", 0, 1) == 0 {
+	shape := vsym.IntRange("shape", 0, 2)
+	if shape == 0 {
 		for i := 0; i < nkeys; i++ {
 			vals[i] = vsym.Bytes("v", 1)
 		}
+	} else if shape == 2 {
+		// an unsynced log mode with an earlier write still pending in the log buffer: the transaction fits the
+		// buffer, but not the room that write left in it
+		nkeys = 2
+		h.sync = 1 + vsym.IntRange("syncmode", 0, 1)
+		vals[0] = hSparse("v", 20000)
+		vals[1] = hSparse("v", 20000)
 	} else {
 		nkeys = 2
 		// payload = 1+8+4+len(key)+4+len(value): the largest value one record can hold, less d
@@ -32,6 +41,9 @@ func VerifC03_CrashInCommit() {
 	acked := 0
 	h.hOpen(true, false)
 	vsym.Durable() // the database was created long ago; the crash concerns the commit
+	if shape == 2 {
+		vsym.Assert(h.e.Put([]byte{0xff, 0xfe}, hSparse("pending", 30000)) == nil, "Put failed")
+	}
 	vsym.CrashRegion(mode, func() {
 		tx, err := h.e.BeginTransaction(false)
 		if err != nil {
@@ -60,7 +72,7 @@ func VerifC03_CrashInCommit() {
 	}
 	vsym.Observe("present", present)
 	vsym.Assert(present == 0 || present == nkeys, "crash recovery shows a strict subset of a transaction's writes")
-	if acked == 1 {
+	if acked == 1 && shape != 2 { // the unsynced log modes do not promise that an acknowledged commit survives a crash
 		vsym.Assert(present == nkeys, "an acknowledged commit is missing after crash recovery")
 	}
 	vsym.Reach("done")
